@@ -294,5 +294,5 @@ def anonymous_namespace_names(ctx):
     unique = "id" in names and any(P.matches(x, "id(self)") for x in ast.walk(dflt)) or {"lineno", "pos"} <= attrs
     ctx.check(unique, "unique", db.where(a[0]), "the default name `%s` is not unique per tag (it needs the tag object's identity, or line and column together): two anonymous <%%namespace import=...> tags can get the same name and all but the last are dropped" % src(dflt), "built from the tag's identity")
     wt = db.func("codegen._GenerateRenderMethod.write_toplevel")
-    keyed = any(P.has(f_, "namespaces[%s.name] = %s" % (pn(f_, 1), pn(f_, 1))) for f_ in ast.walk(wt) if isinstance(f_, ast.FunctionDef) and f_ is not wt and f_.name == "visitNamespaceTag")
+    keyed = any(P.has(f_, "$t[%s.name] = %s" % (pn(f_, 1), pn(f_, 1))) for f_ in ast.walk(wt) if isinstance(f_, ast.FunctionDef) and f_ is not wt and f_.name == "visitNamespaceTag")
     ctx.check(keyed, "table-keyed-by-name", db.where(wt), "namespace table is no longer keyed by the tag's name (rule out of date)", "namespaces[node.name] = node")
